@@ -194,6 +194,10 @@ type Result struct {
 	LiveAtRootReturn  int // tasks other than root not yet finished when root returned
 	ProcsAtRootReturn int // simulated processes still running when root returned
 	StepsAfterRoot    int
+	// OpsAfterRoot lists (the first few) operations other tasks performed after the root
+	// function had returned, apart from their exit: work that the root did not collect.
+	OpsAfterRoot      []string
+	WorkAfterRoot     int
 	MaxProcs          int // most simulated processes running at once
 	ProcBoundViolated string
 
